@@ -286,10 +286,27 @@ def fnFormat : List Json → Except PErr Json
       | none => .error .intrinsic
   | _ => .error .intrinsic
 
+/-- JSON forbids a number with a leading zero (`09`); the shared reader `parseJson` is
+lenient there, so the text is screened first.  States: inside a string literal / after a
+backslash in one / the previous character belongs to the same number. -/
+def leadingZero : Bool → Bool → Bool → Str → Bool
+  | _, _, _, [] => false
+  | true, true, _, _ :: cs => leadingZero true false false cs
+  | true, false, _, c :: cs =>
+    if c = '\\' then leadingZero true true false cs
+    else if c = '"' then leadingZero false false false cs
+    else leadingZero true false false cs
+  | false, _, prevNum, c :: cs =>
+    if c = '"' then leadingZero true false false cs
+    else if c = '0' && !prevNum && (match cs with | d :: _ => d.isDigit | [] => false) then true
+    else leadingZero false false (c.isDigit || c = '.') cs
+
 def fnStringToJson : List Json → Except PErr Json
-  | [.str s] => match parseJson s with
-    | some v => .ok v
-    | none => .error .intrinsic
+  | [.str s] =>
+    if leadingZero false false false s then .error .intrinsic
+    else match parseJson s with
+      | some v => .ok v
+      | none => .error .intrinsic
   | _ => .error .intrinsic
 
 def fnJsonToString : List Json → Except PErr Json
